@@ -36,6 +36,14 @@ CHECKS = {
              "payloads cannot observe any of it). Context clones stored in RetTmp slots are reported under C07.",
         note="trusts the std primitive semantics table in lib/ledger.py; unwinding paths are excluded (panics are outside the property)",
         ref="3.1, 4 C06"),
+    "C07": dict(
+        cat="other",
+        technique="def-use origin tracing of the context operand of every wrapped return (through closure captures), dominance rule for the consuming-call guard, orphan-storage rule on compiler-instantiated RetTmp slots (needs_drop from rustc)",
+        text="each derived object owns one context field (the language drops it once), so the property reduces to: where does that field's value come from "
+             "(fresh clone of the own container's context / moved context of the consumed container), is a clone held across consuming calls, and is any context "
+             "clone parked in storage nobody releases. The last rule fails for the four wrap_with_*_{ref,mut} kinds: recorded known findings.",
+        note="4 known findings (context leak through RetTmp slots); trusts rustc needs_drop and that safe code drops each field once",
+        ref="4 C07"),
     "C08": dict(
         cat="other",
         technique="per-function MIR rules (set of `?`-validated slots, dominance of the success site, aggregate field origins) over all 2^n-1 subsets x 5 operations of every generated group, plus rustc layout_of equality With_S == group",
